@@ -41,10 +41,10 @@ try:
     res["suite_with_change"] = "pass" + note if ok else "FAIL: " + r.stdout[-1500:]
     for f in demos:
         shutil.copy(os.path.join(d, f), os.path.join(wt, pkgdir, "zz_seeded_" + f))
-    r = sh("go test -vet=off -count=1 -run 'Demo|Seeded|Mut' ./%s/ 2>&1 | tail -15" % pkgdir)
+    r = sh("go test -vet=off -count=1 -run 'Demo|Seeded|Mut|TestC[0-9][0-9]' ./%s/ 2>&1 | tail -15" % pkgdir)
     res["demo_with_change"] = "fails" if ("FAIL" in r.stdout) else "PASSES?: " + r.stdout[-800:]
     sh("git apply -R %s" % os.path.join(d, "patch.diff"))
-    r = sh("go test -vet=off -count=1 -run 'Demo|Seeded|Mut' ./%s/ 2>&1 | tail -15" % pkgdir)
+    r = sh("go test -vet=off -count=1 -run 'Demo|Seeded|Mut|TestC[0-9][0-9]' ./%s/ 2>&1 | tail -15" % pkgdir)
     res["demo_without_change"] = "passes" if (r.stdout.startswith("ok") or "\nok" in r.stdout) and "FAIL" not in r.stdout else "NOT PASSING: " + r.stdout[-800:]
 finally:
     subprocess.run(["git", "-C", "/repo", "worktree", "remove", "--force", wt])
